@@ -28,8 +28,7 @@ def run(chk, replay=None):
         elif e["e"] == "RunWeights" and (e["dataAllZero"] or 1 in e["zeroOut"]):
             chk.nontrivial(("r", e["run"], e["k"]))
     chk.cov["evaluations"] = len(rows)
-    for name in ("RefCase", "InitCase", "RefAny", "RunWeights"):
-        chk.sample(next(r for r in rows if r["e"] == name))
+    chk.sample_each(rows, ("RefCase", "InitCase", "RefAny", "RunWeights"))
     ok, matched, res = chk.validate("Trace_C08", trace, need_actions=("RefCase", "InitCase", "RefAny", "RunWeights"))
     if not ok:
         bad = rows[matched] if matched < len(rows) else None
